@@ -116,6 +116,21 @@ def translate(ctx: Any) -> Dict[str, Any]:
     defs.append('/-- `start = %s` (SSHStreamSession.readuntil) -/\n'
                 'def searchStartCode (buflen seplen : Int) : Int :=\n  %s' % (info['readuntil.start'], tr.int(starts[0].value)))
 
+    # readuntil: how a LIST of separators is searched.  Repaired code (F10): one compiled pattern per separator and
+    # `idx = min(<ends of the matches>)`; before: the separators joined into one alternation `sep1|sep2|...`
+    idx_min = [n for n in ast.walk(fn) if isinstance(n, ast.Assign) and len(n.targets) == 1 and
+               isinstance(n.targets[0], ast.Name) and n.targets[0].id == 'idx' and isinstance(n.value, ast.Call) and
+               isinstance(n.value.func, ast.Name) and n.value.func.id == 'min']
+    joins = [n for n in ast.walk(fn) if isinstance(n, ast.Call) and isinstance(n.func, ast.Attribute) and
+             n.func.attr == 'join']
+    idx_all = [n for n in ast.walk(fn) if isinstance(n, ast.Assign) and len(n.targets) == 1 and
+               isinstance(n.targets[0], ast.Name) and n.targets[0].id == 'idx']
+    min_end = bool(idx_min) and len(idx_all) == len(idx_min) and not joins
+    info['readuntil.list-search'] = 'earliest-end' if min_end else 'one-alternation (or unrecognised)'
+    defs.append('/-- a separator list is searched with one pattern per separator and the match that ends first is taken\n'
+                '    (`idx = min(...)`, no `|`.join) -/\n'
+                'def listSearchMinEnd : Bool := %s' % ('true' if min_end else 'false'))
+
     # _should_pause_reading
     fn = _find(cls.body, '_should_pause_reading')
     rets = [n for n in ast.walk(fn) if isinstance(n, ast.Return)]
